@@ -83,7 +83,8 @@ pub fn run_seed(prop: &str, base_seed: u64, tier: &str, index: u64) -> u64 {
 pub fn run_one(prop: &str, base_seed: u64, tier: &str, index: u64, known: &KnownFile, log: bool) -> RunResult {
     let seed = run_seed(prop, base_seed, tier, index);
     let fault_free = index % 5 == 0;
-    let profile = profile_for(prop);
+    let mut profile = profile_for(prop);
+    profile.deep = tier == "thorough" && index % 3 == 1;
     let mut rng = Rng::new(seed);
     let cfg = gen_cfg(&mut rng, &profile, fault_free);
     let mut steps: Vec<Step> = vec![];
@@ -476,6 +477,8 @@ pub fn check(prop: &str, tier: &str) -> i32 {
             "blocks": total.blocks, "forks": total.forks, "fork_transactions": total.fork_txs,
             "simulated_seconds": total.sim_seconds,
             "runs_per_hour": if wall > 0.0 { (results.len() as f64 / wall * 3600.0) as u64 } else { 0 },
+            "deep_runs": if tier == "thorough" { results.iter().filter(|r| r.index % 3 == 1).count() } else { 0 },
+            "deep_runs_rule": "thorough tier only, run index % 3 == 1: 6-16 users, 3-12 chain validators, 2-10 registered, history 3-4x longer, operation / environment weights multiplied per run by factors from {0,1,1,1,2,4} (swarm), fault rates varied",
             "seeds": {"base_seed": base_seed, "first_run_index": 0, "last_run_index": results.last().map(|r| r.index).unwrap_or(0), "derivation": "run seed = mix(base_seed, hash(property), hash(tier), run index)"},
             "fault_counts": total.faults,
             "ops_committed": total.op_committed, "ops_rejected": total.op_rejected,
